@@ -7,6 +7,7 @@ from .. import corr
 from ..synth import Synth
 
 STREAMS = ["yaml"]
+REGENERATE_SRC = True
 RULE = ("YAML documents with a pipeline of 1..8 elements, every element one of: !Tag with mapping / sequence / no "
         "arguments (lazy and eager tag settings), legacy __type__ mapping with keyword items; argument values = "
         "scalars, nested lists and mappings; a constructor failing at a random position in 20% of the documents with one of ten exception types (TypeError, "
